@@ -46,12 +46,12 @@ PROPS = {
         "min_counters": {"accepted_literals": 1000, "rejected_literals": 1000, "runtime_comparisons": 20, "byte_string_literals": 50},
         "rule": ("All nine widths x {0, 1, 2^N-1, 2^N, 2^N+1, 2^(N-1), 10^k, 10^k +- 1, random, wider random} x {decimal, "
                  "binary, hex} x underscore placements (leading, trailing, doubled, between every digit, only "
-                 "underscores) x leading zeros x off-by-one digit counts x 300-digit runs. Oracle: the harness's own "
+                 "underscores) x leading zeros (also mixed with separators: `0_0..`, `00_..`) x off-by-one digit counts x 300-digit runs. Oracle: the harness's own "
                  "literal reader + 256-bit arithmetic. Judged: acceptance of `let x: uN = LIT;`, Value::parse_from_str "
                  "against the Rust constructors, print-parse of the value, run-time eq_N against a constructor-built "
                  "witness (right value finishes, neighbour panics), hex byte strings at [u8; n] for n = 0..40. "
                  "distinct_nontrivial = distinct (width, literal text) judged."),
-        "assumptions": ["texts that are not a single literal token (`0x`, `0xg`) are judged for program acceptance only"],
+        "assumptions": ["a text that denotes nothing must be rejected by `let` and by Value::parse_from_str alike (the string parsers consume their whole input since fix 3aee392)"],
     },
     "C13": {
         "level": "exploration",
@@ -62,7 +62,9 @@ PROPS = {
         "rule": ("Every jet of Elements::ALL (471) from the documented signature table jets_golden.tsv (cross-checked "
                  "against the Simplicity source/target types): the documented one-call program must compile and commit "
                  "(the two reserved jets must be rejected); calls with one argument fewer / more, with two "
-                 "differently-typed arguments swapped, or with the result bound at another type must be rejected. For "
+                 "differently-typed arguments swapped, with the result bound at a type of another shape, with the result bound at "
+                 "up to three differently named types of the SAME layout, or with one argument at a same-layout type of another "
+                 "name must all be rejected. For "
                  "jets with a native closed-form model: boundary (all-zero, all-max, one-hot per argument) and random "
                  "asymmetric argument tuples supplied as witnesses; the observed jet event (input tuple, output) and the "
                  "probed result must equal the native model. distinct_nontrivial = distinct documented calls + distinct "
